@@ -200,6 +200,9 @@ def failure_scenarios():
                  oracle={"f": [{"error": "Boom"}, {"ok": 1}]}))
     S.append(scn("par-timeout", SM("P", P=Par([SM("A", A=T("f", TimeoutSeconds=2, End=True)), SM("B", B=T("g", End=True))], End=True)),
                  oracle={"f": [{"silent": True}]}))
+    # a deferred empty Map completing after its fan-out has failed (F18 territory: FAILED, then SUCCEEDED)
+    S.append(scn("par-emptymap-peer-fails", SM("P", P=Par([SM("M", M=Mp(SM("I", I=P(End=True)), ItemsPath="$.items", End=True)),
+                                                             SM("F", F=P(OutputPath="$.nope", End=True))], End=True)), inputs=({"items": []},)))
     # the machine-level TimeoutSeconds expiring inside a Wait, a Task, and a branch of a Parallel
     S.append(scn("exec-timeout-wait", dict(SM("A", A=P(Next="W"), W=Wt(5, Next="Z"), Z=P(End=True)), TimeoutSeconds=2)))
     S.append(scn("exec-timeout-task", dict(SM("A", A=T("f", Catch=[{"ErrorEquals": ["States.ALL"], "Next": "Z"}], Next="Z"), Z=P(End=True)), TimeoutSeconds=2),
